@@ -7,6 +7,7 @@ import (
 	"fmt"
 	"sort"
 	"strconv"
+	"strings"
 
 	"github.com/robfig/soy/data"
 )
@@ -679,7 +680,13 @@ type FloatNode struct {
 }
 
 func (n *FloatNode) String() string {
-	return strconv.FormatFloat(n.Value, 'g', -1, 64)
+	var s = strconv.FormatFloat(n.Value, 'g', -1, 64)
+	// an integral value is formatted without fraction or exponent ("2"): add the
+	// fraction, so that the text reads back as a float literal, not an integer.
+	if !strings.ContainsAny(s, ".eEIN") {
+		s += ".0"
+	}
+	return s
 }
 
 type StringNode struct {
